@@ -57,6 +57,25 @@ NEEDS.update({
  "C10c": ("first round drops cross-term contributions from the first zero of a onward (treated as padding)", "vector a with a zero followed by a non-zero entry"),
  "C10d": ("shape guards merged into lg_n >= 32 || n > (1 << lg_n)", "proof with surplus rounds for the claimed length"),
 })
+NEEDS.update({
+ "C01h": ("verifier runs deferred randomized callbacks last-registered-first (while let Some(cb) = pop()), prover in registration order", "two or more randomized callbacks"),
+ "C02h": ("constrain() on both roles stores lc.normalize(): sort + dedup_by that accumulates into the dropped element", "a variable repeated inside one constraint (a + a - V)"),
+ "C03h": ("batch weights hoisted as vec![rand(prng); len]: one draw cloned for every instance", "two invalid members with opposite residuals in one batch"),
+ "C04h": ("challenges u and x squeezed next to y, z, before T_1..T_6 are absorbed (both roles)", "padded size 1: (T_k, t_x_blinding) shifted by (d, x^k d) still verifies"),
+ "C05h": ("commit() on both roles skips a repeated commitment (no push, no absorb, returns the existing variable)", "a commitment list with a repeated entry; extra/missing/reordered duplicates accepted"),
+ "C06h": ("create/verify/verify_and_return_transcript absorb the final ipp scalars a, b; batch_verify does not", "batch verification followed by further use of the verifier transcript"),
+ "C07h": ("batch_verify one-pass: shared G/H blocks adjusted with Vec::resize(padded_n), which also truncates", "a member with a smaller padded size after a larger one"),
+ "C08h": ("scalars for A_I2/A_O2/S2 emitted only when n2 > 0, points included only when not all identity", "hostile proof making the two conditions disagree: msm(..).unwrap() panics"),
+ "C09h": ("masking vectors merged into one pair; phase-2 fill loops over n1..n2 (count used as end index)", "multipliers in both phases: second-phase masks zero"),
+ "C10h": ("create() fast path for n == 1 returns before innerproduct_domain_sep is absorbed; verifier still absorbs it", "length-1 argument followed by another argument on the same transcript"),
+ "C11h": ("from_bytes pre-reads the L count at header_len guarded only by slice.len() < header_len (header counts 3 of 5 scalars)", "prefix lengths in [header_len, header_len+8): panic instead of FormatError"),
+ "C12h": ("increase_capacity appends next_power_of_two(new) - old points while gens_capacity stays new", "resize from a non-power-of-two capacity: later growth duplicates generators"),
+ "C13h": ("commit rewritten as shared double-and-add with sign-adjusted bases; the combined table entry uses the raw bases", "short negative value or blinding sharing a set bit with the other scalar"),
+ "C15h": ("LinearCombination gets a separate constant field; Neg and Mul still only walk terms", "negation or scaling of an expression containing a constant"),
+ "C16h": ("pending reset moved into the 2-phase branch; verifier resets inside the callback loop, prover once before it", "a randomized callback leaving an unpaired allocate followed by another allocating callback"),
+ "C17h": ("prover's early gens_capacity < n1 guard removed as 'redundant'", "capacity below n1: first-phase msm(..).unwrap() panics instead of the error"),
+ "C18h": ("multiply/allocate_multiplier/allocate(None) routed through push_multiplier which also clears the pending gate (both roles)", "allocate, multiply, allocate: wiring differs from the reference, recorded proofs rejected"),
+})
 sid = sys.argv[1]
 src = f"/tmp/seed_out/{sid}"
 dst = f"/verif/seeded/{sid}"
@@ -71,7 +90,7 @@ for f in ("patch.diff", "seed_demo.rs", "notes.md", "confirm.txt"):
 what, needs = NEEDS.get(sid, ("", ""))
 meta = {
  "id": sid, "breaks_property": sid[:3], "change": what, "needs_to_manifest": needs,
- "origin": "written by an independent sub-agent given only the property text and a scratch worktree",
+ "origin": ("written by an independent sub-agent given only the property text and a scratch worktree" + (", asked for two cooperating sites / a multi-step sequence / an unusual input (round h)" if sid.endswith("h") else "")),
  "confirmed_by": "tools/confirm_seed.sh in a scratch worktree outside /repo and /verif: demo passes on the pristine tree; with the patch all 78 existing tests pass and the demo fails",
  "confirm_verdict": (re.search(r"== verdict: (.*)", conf).group(1) if re.search(r"== verdict: (.*)", conf) else "see confirm.txt"),
  "demo": "seed_demo.rs (place at tests/seed_demo.rs; `cargo test --offline --test seed_demo`)",
